@@ -22,6 +22,10 @@ def main():
     ap.add_argument("--scale", default="1")
     args = ap.parse_args()
     muts = json.load(open(os.path.join(VERIF, "tools", "mutants.json")))
+    md = os.path.join(VERIF, "tools", "mutants.d")
+    for fn in sorted(os.listdir(md)) if os.path.isdir(md) else []:
+        if fn.endswith(".json"):
+            muts += json.load(open(os.path.join(md, fn)))
     if args.only:
         ids = set(args.only.split(","))
         muts = [m for m in muts if m["id"] in ids]
